@@ -219,3 +219,38 @@ def add_simplex_to(chk, r, n, **kw):
     if st:
         k, dis, keys, samples = st
         chk.corr(SIM_NAME, k, dis, keys, samples)
+
+
+# ----------------------------------------------------------------------------- Bayesian / TPE / Forest, complete model
+
+SMBO_NAME = ("whole optimizer BayesianOptimizer / TreeStructuredParzenEstimators / ForestOptimizer (X/Y training lists, candidate set with constraint "
+             "filter and removal, training-failure fallback, subsampling, proposal = first row of the checked descending argsort of the acquisition "
+             "vector; the ValueError of an exhausted candidate set and Forest's NotFittedError are PREDICTED): GFO.Model.SmboBackend driven through the "
+             "driver model by the recorded tape must emit the same positions, rows, trace, best result or the same exception, the tracker, X_sample, "
+             "Y_sample, the number of candidates and consume the tape exactly")
+
+
+def smbo_stage(chk, r, n, constraint_p=0.4, nonfinite_p=0.3):
+    sps = []
+    for name in loc.SMBO3:
+        for _ in range(n):
+            sps.append(bkgen.scenario(r, name, constraint_p=constraint_p, nonfinite_p=nonfinite_p))
+    dis, keys, samples = [], set(), []
+    k = 0
+    for i in range(0, len(sps), 30):
+        for s, o in loc.run_batch(sps[i:i + 30], loc.run_smbo_scenario):
+            k += 1
+            keys.add((s["opt"], s["opt_kwargs"].get("replacement"), "sampling" in s["opt_kwargs"], bool(s.get("constraint")), tuple(sorted(o["tape_kinds"])),
+                      "raised-as-predicted" if o["raised"] and o["diff"] is None else ("raised" if o["raised"] else "ok")))
+            if o["diff"] is not None:
+                dis.append(dict(case=s, diff=o["diff"]))
+            elif len(samples) < 2:
+                samples.append(dict(opt=s["opt"], kwargs={k_: str(v) for k_, v in s["opt_kwargs"].items()}, tape_entries=o["tape_len"], raised=o["raised"]))
+    return k, dis, keys, samples
+
+
+def add_smbo_to(chk, r, n, **kw):
+    st = chk.stage("whole-optimizer surrogate-model correspondence", smbo_stage, chk, r, n, **kw)
+    if st:
+        k, dis, keys, samples = st
+        chk.corr(SMBO_NAME, k, dis, keys, samples)
